@@ -9,24 +9,24 @@ import (
 )
 
 type ReplayFile struct {
-	Path       string            `json:"-"`
-	Property   string            `json:"property"`
-	Obligation string            `json:"obligation"`
-	Family     string            `json:"family"`
-	Kind       string            `json:"kind"`
-	At         string            `json:"at"`
-	Text       string            `json:"text"`
-	Status     string            `json:"status"`
-	Answers    map[string]string `json:"solver_answers"`
-	Model      map[string]string `json:"model,omitempty"`
-	Inputs     map[string]string `json:"inputs,omitempty"`
-	SMT        string            `json:"smt_query,omitempty"`
-	Outcome    string            `json:"outcome"` // reproduced | not-reproduced | no-adaptor | no-model
-	ReplayLog  string            `json:"replay_log,omitempty"`
-	TestSource string            `json:"test_source,omitempty"`
-	TestPkg    string            `json:"test_pkg,omitempty"`
-	TestName   string            `json:"test_name,omitempty"`
-	CandidateOnly bool           `json:"model_is_candidate_from_relaxed_query,omitempty"`
+	Path          string            `json:"-"`
+	Property      string            `json:"property"`
+	Obligation    string            `json:"obligation"`
+	Family        string            `json:"family"`
+	Kind          string            `json:"kind"`
+	At            string            `json:"at"`
+	Text          string            `json:"text"`
+	Status        string            `json:"status"`
+	Answers       map[string]string `json:"solver_answers"`
+	Model         map[string]string `json:"model,omitempty"`
+	Inputs        map[string]string `json:"inputs,omitempty"`
+	SMT           string            `json:"smt_query,omitempty"`
+	Outcome       string            `json:"outcome"` // reproduced | not-reproduced | no-adaptor | no-model
+	ReplayLog     string            `json:"replay_log,omitempty"`
+	TestSource    string            `json:"test_source,omitempty"`
+	TestPkg       string            `json:"test_pkg,omitempty"`
+	TestName      string            `json:"test_name,omitempty"`
+	CandidateOnly bool              `json:"model_is_candidate_from_relaxed_query,omitempty"`
 }
 
 func relaxedModel(o *Obligation) map[string]string {
